@@ -524,6 +524,8 @@ def run_conc(pid, tier, t0, rule, assumptions, plan_key=None):
         if p.returncode != 0:
             raise ToolError("scheduler harness failed in mode %s (exit %s): are the yield hooks present?" % (mode, p.returncode))
         summ = json.load(open(os.path.join(d, "summary.json")))
+        if mode in ("dfs", "random") and (not summ.get("hook_installed") or not summ.get("yield_points_hit")):
+            raise ToolError("the scheduler saw no yield point: the hooks (cfg unimock_verif) are missing from the tree the harness was built against")
         n_events, rej, st = validate_all(tr, "ctrace_%s_%s%s" % (pid.lower(), mode, "" if build == "std" else "_nostd"))
         cov["states"] += st; cov["transitions"] += st
         cov["traces_validated_against_impl"] += summ["executions"]
@@ -594,6 +596,8 @@ def run_chain_conc(pid, tier, t0):
                 continue
             raise ToolError("scheduler harness failed in chain mode %s (exit %s)" % (mode, p.returncode))
         summ = json.load(open(os.path.join(d, "summary.json")))
+        if mode in ("dfs", "random") and (not summ.get("hook_installed") or not summ.get("yield_points_hit")):
+            raise ToolError("the scheduler saw no yield point: the hooks (cfg unimock_verif) are missing from the tree the harness was built against")
         n_events, rej, st = validate_all(tr, "chaintrace_%s%s" % (mode, "" if build == "std" else "_nostd"), module="ChainTrace")
         cov["states"] += st; cov["transitions"] += st
         cov["traces_validated_against_impl"] += summ["executions"]; cov["evaluations"] += summ["executions"]
